@@ -42,7 +42,7 @@ Qed.
 (* --- get_region_for_chip --- *)
 Lemma region_for_chip_check :
   all_xyl (fun x y l => get_region_for_chip x y l =? expected_word x y l) = true.
-Proof. vm_compute. reflexivity. Qed.
+Proof. vm_cast_no_check (eq_refl true). Qed.
 
 Lemma region_for_chip_digits : forall x y l, 0 <= x < 256 -> 0 <= y < 256 -> 0 <= l <= 3 ->
   get_region_for_chip x y l = expected_word x y l.
@@ -55,7 +55,7 @@ Qed.
 Lemma subregion_index_check :
   all_xyl (fun x y l => subregion_index x y (tree_shift l)
                         =? (x / sub_side l) mod 4 + 4 * ((y / sub_side l) mod 4)) = true.
-Proof. vm_compute. reflexivity. Qed.
+Proof. vm_cast_no_check (eq_refl true). Qed.
 
 Lemma subregion_index_digits : forall x y l, 0 <= x < 256 -> 0 <= y < 256 -> 0 <= l <= 3 ->
   subregion_index x y (tree_shift l) = (x / sub_side l) mod 4 + 4 * ((y / sub_side l) mod 4).
@@ -68,7 +68,7 @@ Qed.
 Lemma region_code_check :
   all_xyl (fun bx by_ l => negb (by_ mod 4 =? 0)
                            || (region_code bx by_ l =? (bx * 256 + by_ + l) * 2 ^ 16)) = true.
-Proof. vm_compute. reflexivity. Qed.
+Proof. vm_cast_no_check (eq_refl true). Qed.
 
 Lemma region_code_digits : forall bx by_ l, 0 <= bx < 256 -> 0 <= by_ < 256 -> 0 <= l <= 3 ->
   by_ mod 4 = 0 -> region_code bx by_ l = (bx * 256 + by_ + l) * 2 ^ 16.
